@@ -26,7 +26,7 @@ theorem SideInv.count_le_vol {os : List Entry} {sd : Side} {s : SideS} {stamp : 
       · exact this
   apply key
   intro e he
-  obtain ⟨e0, he0, _, _, _, _, hv, _⟩ := h.ent e.1 e.2 he
+  obtain ⟨e0, he0, _, _, _, _, hv, _, _⟩ := h.ent e.1 e.2 he
   simp [volOf, he0]; exact hv
 
 /-- Re-inserting an entry that was just removed gives the side back, literally. -/
@@ -221,7 +221,7 @@ theorem load_unload {b : Book} {i : Nat} {T : SideS × SideS} (h : Strip b (i + 
     Book.loadStep ((unloadStep e T).1, (unloadStep e T).2, b.stamp) e = (T.1, T.2, b.stamp) := by
   by_cases ha : e.order.status = .active
   · have hm := h.mem i e (Nat.lt_succ_self i) he ha
-    obtain ⟨e1, he1, _, _, hkey, _, _, hst⟩ := (h.inv e.order.side).ent _ _ hm
+    obtain ⟨e1, he1, _, _, hkey, _, _, hst, _⟩ := (h.inv e.order.side).ent _ _ hm
     rw [he] at he1; injection he1 with he1; subst he1
     simp only at hst
     have hir := (h.inv e.order.side).insert_remove e.key.pk e.key.st i e hm he
